@@ -5,7 +5,7 @@
    hilbert_curve.rs (Gen/HilbertTables.v). *)
 From Coupe Require Import Lib.Prelude Lib.SFloat Model.Hilbert Gen.HilbertTables
   Proofs.HilbertCurve Proofs.HilbertCert Proofs.HilbertInst Proofs.HilbertEncode2D Proofs.HilbertPdep
-  Proofs.HilbertInterleave Proofs.Hilbert3D Proofs.HilbertSeg.
+  Proofs.HilbertInterleave Proofs.Hilbert3D Proofs.HilbertSeg Proofs.HilbertSegFactor.
 From Coq Require Import Floats.SpecFloat.
 Open Scope N_scope.
 
@@ -124,22 +124,31 @@ Theorem C08_encode_2d_pinned_refuted :
 Proof. exact encode_2d_pinned_refuted. Qed.
 
 (* ---- segment_to_segment: the quantisation is monotone and maps the
-   bounding interval into [0, 2^order - 1] (IEEE-754 facts from Flocq; these two
-   theorems depend on the axioms of Coq's real numbers, listed below) *)
-Theorem C08_seg_monotone : forall f mn mx v v' c c',
-  valid64 f -> is_finite f = true -> sign_of f = false ->
-  valid64 mn -> valid64 v -> valid64 v' ->
-  is_finite mn = true -> is_finite v = true -> is_finite v' = true ->
+   bounding interval into [0, 2^order - 1], for every finite interval, every
+   order < 64 and every finite value (IEEE-754 facts from Flocq; these theorems
+   depend on the axioms of Coq's real numbers, printed below).  [seg_factor ..
+   = Ok f]: the nextafter loop returned within the fuel. *)
+Theorem C08_bits_are_valid_floats : forall b, valid64 (f64_of_bits b).
+Proof. exact of_bits_valid. Qed.
+Theorem C08_seg_monotone : forall fuel mn mx order f v v' c c',
+  seg_factor fuel mn mx order = Ok f ->
+  valid64 mn -> valid64 mx -> valid64 v -> valid64 v' ->
+  is_finite mn = true -> is_finite mx = true -> is_finite v = true -> is_finite v' = true ->
   fle v v' = true ->
   seg_cell f mn mx v = Ok c -> seg_cell f mn mx v' = Ok c' -> c <= c'.
-Proof. exact seg_monotone. Qed.
+Proof. exact seg_monotone_full. Qed.
 Theorem C08_seg_range : forall fuel mn mx order f v c,
   seg_factor fuel mn mx order = Ok f ->
-  valid64 f -> is_finite f = true -> sign_of f = false ->
   valid64 mn -> valid64 mx -> valid64 v ->
   is_finite mn = true -> is_finite mx = true -> is_finite v = true ->
   seg_cell f mn mx v = Ok c -> c <= 2 ^ order - 1.
-Proof. exact seg_range. Qed.
+Proof. exact seg_range_full. Qed.
+(* the factor is a valid finite non-negative float unless min = +0.0, max = -0.0 *)
+Theorem C08_seg_factor_good : forall fuel mn mx order f,
+  seg_factor fuel mn mx order = Ok f -> valid64 mn -> valid64 mx ->
+  is_finite mn = true -> is_finite mx = true -> good f \/ corner mn mx.
+Proof. exact seg_factor_good. Qed.
+Print Assumptions C08_bits_are_valid_floats.
 Print Assumptions C08_seg_monotone.
 Print Assumptions C08_seg_range.
 
@@ -163,4 +172,8 @@ Example C08_nonvacuous_3d :
   encode_3d 5 3 7 3 = Ok 407 /\ dec3 3 0 407 = (5, 3, 7) /\ enc3 3 0 5 3 7 / 8 = enc3 2 0 2 1 3.
 Proof. vm_compute. repeat split; reflexivity. Qed.
 Example C08_nonvacuous_pdep : pdep 0x12567 0xff00fff0 = 0x12005670.
+Proof. vm_compute. reflexivity. Qed.
+Example C08_nonvacuous_seg :   (* [0, 8] at order 3: the values 0..8 *)
+  segment_to_segment seg_fuel (f64_of_Z 0) (f64_of_Z 8) 3 (map f64_of_Z [0;1;2;3;4;5;6;7;8]%Z)
+  = Ok [0; 0; 1; 2; 3; 4; 5; 6; 7].
 Proof. vm_compute. reflexivity. Qed.
